@@ -333,7 +333,7 @@ def run(ctx):
         if ctx.out_of_time():
             break
     ctx.stats.count('systematic_refs_done', i)
-    explore_cases(ctx, gen, check, {'quick': 15000, 'thorough': 300000}[ctx.tier], 'nav')
+    explore_cases(ctx, gen, check, {'quick': 15000, 'thorough': 750000}[ctx.tier], 'nav')
 
 
 def replay(witness):
